@@ -848,7 +848,7 @@ def check_C17(tier, seed):
         for _ in range(150 if quick else 3000):
             W = datasets.random_world(rng, rng.randint(1, 6))
             dom = datasets.domains_for(rng, W, 1, maxdom=5)[0]
-            attr = rng.choice(["items", "t", "n", "refs", "ref", "s"])
+            attr = rng.choice(["items", "t", "n", "refs", "ref", "s", "pairs"])
             q = {"vars": [{"cls": "A", "dom": dom}], "flats": [], "bound": [1], "desc": "entity", "quant": "an",
                  "sel": [{"k": "concat", "e": {"k": "attr", "e": {"k": "var", "i": 1}, "a": attr}}],
                  "cond": {"k": "true"}, "varkeys": [1]}
